@@ -87,6 +87,8 @@ STATEMENT_STATUS: Dict[str, str] = {
         "the resolution fuel suffices; stream_read_exact with an indirect Length",
     "stream_keys_rt": "proved: the chain theorem through the stream dictionary - Filter or F, DecodeParms or DP or FDecodeParms "
         "(translated key tuples)",
+    "dict_keys_priority/stream_dict_rt": "proved: for every stream dictionary F wins over Filter, DP over DecodeParms over "
+        "FDecodeParms (translated tuples), and the chain theorem holds for every dictionary whose winning keys carry the arrays",
     "file_chain_rt": "proved: the property in one statement - file bytes -> stream branch (Length = |z|) -> PDFStream.decode "
         "of a chain of any length gives exactly the payload",
     "predictor_translated": "proved: the model's predictor dispatch = the translated `pred == 1 / == 2 / >= 10 / else` chain of "
